@@ -53,7 +53,7 @@ COVERAGE_TARGETS = [
     'slotSet:inst:precedence:ok', 'slotSet:cls:boundsList:ok', 'slotSet:cls:objects:ok', 'slotSet:cls:constant:ok',
     'slotMut:inst:objectsAppend:ok', 'slotMut:inst:namesInsert:ok', 'slotMut:inst:boundsSetHi:ok', 'slotMut:inst:boundsSetHi:TypeError',
     'slotMut:cls:objectsAppend:ok', 'slotMut:cls:namesInsert:ok', 'slotMut:cls:boundsSetHi:ok', 'slotSet:inst:objects:AttributeError',
-    'leaky-ctor-kwarg', 'skipped:no-instance', 'mkInst:pending-ref:ok', 'sharedFail:ok', 'decl:tagged-parameter-subclass', 'decl:refs:pi=0',
+    'leaky-ctor-kwarg', 'skipped:no-instance', 'mkInst:pending-ref:ok', 'sharedFail:ok', 'decl:tagged-parameter-subclass', 'decl:refs:pi=0', 'decl:container-subclass', 'class:falsy-instances', 'setVal:via-update',
 ]
 
 ERRS = (ValueError, TypeError, AttributeError)
@@ -101,22 +101,28 @@ def _tagged_class():
     return _TAGGED[0]
 
 
+class _L(list):
+    """a list subclass: a mutable container all the same (container values of Parameter attributes may be of any
+    MutableSequence / MutableMapping type)"""
+
+
 def _mk_param(param, d):
+    lst = _L if d.get('lsub') else list
     kw = {'instantiate': d['inst'], 'constant': d['const'], 'per_instance': d['pi']}
     if d.get('refs'):
         kw['allow_refs'] = True
     default = list(d['default']) if isinstance(d['default'], list) else d['default']
     if d['kind'] == 'plain':
         if d.get('tags') is not None:
-            return _tagged_class()(default=default, tags=list(d['tags']), **kw)
+            return _tagged_class()(default=default, tags=lst(d['tags']), **kw)
         return param.Parameter(default=default, **kw)
     if d['kind'] == 'number':
         if d['btup'] is not None:
             kw['bounds'] = tuple(d['btup'])
         elif d['blist'] is not None:
-            kw['bounds'] = list(d['blist'])
+            kw['bounds'] = lst(d['blist'])
         return param.Integer(default=default, **kw)
-    return param.Selector(objects=list(d['objects']), default=default, check_on_set=d['cos'], **kw)
+    return param.Selector(objects=lst(d['objects']), default=default, check_on_set=d['cos'], **kw)
 
 
 class _World:
@@ -224,7 +230,11 @@ def _apply(w, op):
     if o == 'mkClass':
         k = len(w.classes)
         base = w.classes[op['mro'][0]] if op['mro'] else param.Parameterized
-        K = type(f'K{k}', (base,), {f'p{d["name"]}': _mk_param(param, d) for d in op['decls']})
+        body = {f'p{d["name"]}': _mk_param(param, d) for d in op['decls']}
+        if op.get('falsy'):
+            # instances that are falsy (an empty collection-like object): nothing may depend on their truth value
+            body['__len__'] = lambda self: 0
+        K = type(f'K{k}', (base,), body)
         got = [w.classes.index(c) for c in K.__mro__[1:] if c in w.classes]
         if got != list(op['mro']):
             raise RuntimeError(f'mro of the case {op["mro"]} is not the real one {got}')
@@ -252,7 +262,10 @@ def _apply(w, op):
     name = f'p{op["x"]}'
     try:
         if o == 'setVal':
-            setattr(tgt, name, _lit(op['v']))
+            if op.get('via') == 'update' and op['t'][0] == 'inst':
+                tgt.param.update(**{name: _lit(op['v'])})        # the same assignment through the .param namespace
+            else:
+                setattr(tgt, name, _lit(op['v']))
         elif o == 'mutVal':
             getattr(tgt, name).append(op['v'])
         elif o == 'access':
@@ -263,9 +276,9 @@ def _apply(w, op):
             if 'btup' in s:
                 P.bounds = None if s['btup'] is None else tuple(s['btup'])
             elif 'blist' in s:
-                P.bounds = list(s['blist'])
+                P.bounds = (_L if s.get('lsub') else list)(s['blist'])
             elif 'objects' in s:
-                P.objects = list(s['objects'])
+                P.objects = (_L if s.get('lsub') else list)(s['objects'])
             elif 'constant' in s:
                 P.constant = s['constant']
             else:
@@ -372,8 +385,8 @@ def D(name, kind, default, inst=False, const=False, pi=True, cos=False, btup=Non
 SHARED_FAIL = {'op': 'sharedFail'}
 
 
-def mkClass(mro, decls):
-    return {'op': 'mkClass', 'mro': mro, 'decls': decls}
+def mkClass(mro, decls, falsy=False):
+    return {'op': 'mkClass', 'mro': mro, 'decls': decls, 'falsy': falsy}
 
 
 def mkInst(k, kwargs=()):
@@ -452,6 +465,12 @@ def directed():
     # class-level writes on a subclass stay on the subclass: in-place changes of its Parameter's containers do not reach the parent
     yield BASE + [setV(C(1), 1, 2), smut(C(1), 1, objectsAppend=9), smut(C(1), 1, namesInsert=9), smut(C(0), 1, objectsAppend=8),
                   setV(C(1), 0, 3), smut(C(1), 0, boundsSetHi=50), setV(C(0), 0, 40), setV(C(1), 0, 40), mkInst(1), mkInst(0), acc(0, 1), acc(1, 0)]
+    # container subclasses as attribute values; falsy instances assigned through .param.update
+    yield [mkClass([], [dict(D(0, 'number', 5, blist=[0, 10]), lsub=True), dict(D(1, 'selector', 1, cos=False, objects=[1, 2]), lsub=True),
+                        dict(D(2, 'plain', 3, tags=[7]), lsub=True)], falsy=True), mkClass([0], []), mkInst(0), mkInst(1), acc(0, 0), acc(0, 1), acc(0, 2),
+           smut(I(0), 1, objectsAppend=9), smut(I(0), 0, boundsSetHi=50), dict(setV(I(1), 0, 7), via='update'), dict(setV(I(1), 1, 8), via='update'),
+           dict(setV(I(0), 2, 4), via='update'), setV(C(1), 1, 2), smut(C(1), 1, objectsAppend=6), dict(sset(I(1), 0, blist=[0, 30]), s={'blist': [0, 30], 'lsub': True}),
+           smut(I(1), 0, boundsSetHi=31), mkInst(0, [(1, 1)]), dict(setV(I(2), 1, 12), via='update')]
     # a shared_parameters block left by an exception leaves no sharing behind
     yield BASE + [SHARED_FAIL, mkInst(0), mkInst(0), mkInst(1), mutV(I(0), 2, 9), setV(C(0), 2, [8]), mkInst(0), SHARED_FAIL, mkInst(1), mutV(I(3), 2, 1)]
     # defaults that are None at construction time and filled in on the class later
@@ -503,13 +522,14 @@ def _random_case(rng, leaky):
     def add_class(mro):
         nonlocal nparams
         n = rng.randint(2, 4) if not mro else rng.randint(0, 1)
-        decls = [_rand_decl(rng, nparams + j) for j in range(n)]
+        decls = [dict(_rand_decl(rng, nparams + j), lsub=rng.random() < 0.3) for j in range(n)]
         nparams += n
         vis = dict(classes[mro[0]][1]) if mro else {}
         vis.update({d['name']: d for d in decls})
         classes.append((mro, vis))
-        ops.append(mkClass(mro, decls))
+        ops.append(mkClass(mro, decls, falsy=(falsy_case if not mro else False)))
 
+    falsy_case = rng.random() < 0.25
     add_class([])
     attempts = []                  # class of every creation attempt
     n_ops = rng.randint(3, 20)
@@ -548,7 +568,10 @@ def _random_case(rng, leaky):
         x, d = rng.choice(sorted(vis.items()))
         r = rng.random()
         if r < 0.3:
-            ops.append(setV(t, x, _value(rng, d, safe=False)))
+            op = setV(t, x, _value(rng, d, safe=False))
+            if t[0] == 'inst' and rng.random() < 0.35:
+                op['via'] = 'update'
+            ops.append(op)
         elif r < 0.42:
             ops.append(mutV(t, x, rng.randint(1, 9)))
         elif r < 0.55 and t[0] == 'inst':
@@ -639,11 +662,17 @@ def tags(case, impl):
         if _leaky_steps(case, impl):
             t.append('leaky-ctor-kwarg')
         for op in case['ops']:
+            if op['op'] == 'setVal' and op.get('via') == 'update':
+                t.append('setVal:via-update')
+            if op['op'] == 'mkClass' and op.get('falsy'):
+                t.append('class:falsy-instances')
             if op['op'] == 'mkClass':
                 for d in op['decls']:
                     t.append(f'decl:{d["kind"]}:inst={int(d["inst"])}:const={int(d["const"])}:pi={int(d["pi"])}')
                     if d.get('tags') is not None:
                         t.append('decl:tagged-parameter-subclass')
+                    if d.get('lsub') and (d.get('tags') is not None or d.get('blist') is not None or d.get('objects') is not None):
+                        t.append('decl:container-subclass')
                     if d.get('refs') and not d['pi']:
                         t.append('decl:refs:pi=0')
                     if d['default'] is None:
